@@ -136,19 +136,43 @@ theorem GT.then {a b c : W} (h1 : GT a b) (h2 : CStep b c) : GT a c :=
 theorem GT.trans {a b c : W} (h1 : GT a b) (h2 : GT b c) : GT a c := ⟨h2.1, h1.2.trans h2.2⟩
 theorem GT.recover {a b : W} (h : GT a b) : GT a (recover b) := ⟨h.1.recover, h.2.trans (TrExt.of_eq rfl)⟩
 
+theorem applyAction_trace (w : W) (a : Action) : (applyAction w a).1.trace = w.trace := by
+  cases a with
+  | tick dt => rfl
+  | conn c => rfl
+  | send c t => simp only [applyAction]; split <;> rfl
+  | close c => simp only [applyAction]; split <;> rfl
+  | cin t => simp only [applyAction]; split <;> rfl
+  | idle => rfl
+
+theorem applyActions_trace : ∀ (as : List Action) (w : W), (applyActions as w).1.trace = w.trace := by
+  intro as
+  induction as with
+  | nil => intro w; rfl
+  | cons a as ih => intro w; show (applyActions as (applyAction w a).1).1.trace = _; rw [ih, applyAction_trace]
+
+theorem Good.emit {w : W} (g : Good w) (e : Ev) : Good (emit w e) :=
+  ⟨⟨g.inv.crashed, g.inv.inError, g.inv.inMeh, g.inv.live, g.inv.inj, g.inv.len, g.inv.cur, g.inv.cur0, g.inv.bound⟩,
+   g.console, g.base⟩
+
+/-- the head of an iteration: turns granted, the marker `cycle n` is the one event, the outside world has acted -/
 theorem cycleHead_good (n : Nat) (acts : List Action) (w : W) (g : Good w) :
-    GT w (cycleHead n acts w).1 ∧ (∀ t, IoEv.console t ∈ (cycleHead n acts w).2 → w.mode = .console) ∧
+    Good (cycleHead n acts w).1 ∧ (cycleHead n acts w).1.trace = Ev.cycle n :: w.trace ∧
+    (∀ t, IoEv.console t ∈ (cycleHead n acts w).2 → w.mode = .console) ∧
     (cycleHead n acts w).1.mode = w.mode := by
   unfold cycleHead
   have s1 := mapAll_step w (fun c => { c with turn := true }) (fun _ => rfl) (fun _ h => h)
-  have s2 : Step w (emit { w with users := w.users.map (fun l => l.map (fun s => s.map
-      (fun c => { c with turn := true }))) } (.cycle n)) := Step.trans s1 (emit_same _ _).step
-  have s3 := Step.trans s2 (applyActions_same acts _).step
-  refine ⟨GT.of_cstep g s3.toC, ?_, ?_⟩
+  have g1 : Good { w with users := w.users.map (fun l => l.map (fun s => s.map (fun c => { c with turn := true }))) } :=
+    g.cstep s1.toC
+  have g2 := g1.emit (.cycle n)
+  have s3 := (applyActions_same acts (emit { w with users := w.users.map (fun l => l.map (fun s => s.map
+      (fun c => { c with turn := true }))) } (.cycle n))).step
+  refine ⟨g2.cstep s3.toC, ?_, ?_, ?_⟩
+  · rw [applyActions_trace]; rfl
   · intro t ht
     have := applyActions_console acts _ t ht
     exact this
-  · exact (s3 g.inv).2.mode
+  · exact (s3 g2.inv).2.mode
 
 theorem cycleBody_good (S : Scripts) (rh : HookFn) (hrh : HookOK rh) (k : Nat) (w : W) (evs : List IoEv)
     (g : Good w) (hc : ∀ t, IoEv.console t ∈ evs → w.mode = .console) :
@@ -175,23 +199,106 @@ theorem cycleBody_good (S : Scripts) (rh : HookFn) (hrh : HookOK rh) (k : Nat) (
         · exact g3
       · exact g2
 
+/-- blocks at the level of whole iterations: as `BlockOK`, but cycle markers may occur -/
+structure BlockC (es : List Ev) : Prop where
+  noCrash : ∀ e ∈ es, isCrash e = false
+  report : reportOk es.reverse = true
+  closed : ∀ who, es.head? ≠ some (.xErr who)
+
+theorem BlockOK.toC {es : List Ev} (b : BlockOK es) : BlockC es := ⟨b.noCrash, b.report, b.closed⟩
+
+theorem BlockC.append {a b : List Ev} (ha : BlockC a) (hb : BlockC b) : BlockC (b ++ a) := by
+  refine ⟨?_, ?_, ?_⟩
+  · intro e he
+    rcases List.mem_append.mp he with h | h
+    · exact hb.noCrash e h
+    · exact ha.noCrash e h
+  · rw [List.reverse_append]
+    apply reportOk_append _ _ ha.report _ hb.report
+    intro who
+    rw [List.getLast?_reverse]
+    exact ha.closed who
+  · intro who
+    cases b with
+    | nil => exact ha.closed who
+    | cons x xs => exact hb.closed who
+
+/-- chronological list of the cycle markers of a (newest-first) trace -/
+def markers (t : List Ev) : List Nat :=
+  t.reverse.filterMap (fun e => match e with | .cycle k => some k | _ => none)
+
+theorem markers_append (a b : List Ev) : markers (a ++ b) = markers b ++ markers a := by
+  unfold markers; rw [List.reverse_append, List.filterMap_append]
+
+theorem markers_noCycle (es : List Ev) (h : ∀ e ∈ es, isCycleEv e = false) : markers es = [] := by
+  unfold markers
+  rw [List.filterMap_eq_nil_iff]
+  intro e he
+  have := h e (List.mem_reverse.mp he)
+  cases e <;> first | rfl | (simp [isCycleEv] at this)
+
+/-- good at the end; the trace grew by a block that is well-formed up to cycle markers, and exactly the markers
+    `ms` were added -/
+def GTC (w w' : W) (ms : List Nat) : Prop :=
+  Good w' ∧ ∃ es, w'.trace = es ++ w.trace ∧ BlockC es ∧ markers es = ms
+
+theorem GT.toC {w w' : W} (h : GT w w') : GTC w w' [] := by
+  obtain ⟨es, he, hb⟩ := h.2
+  exact ⟨h.1, es, he, hb.toC, markers_noCycle es hb.noCycle⟩
+
+theorem GTC.trans {a b c : W} {m1 m2 : List Nat} (h1 : GTC a b m1) (h2 : GTC b c m2) : GTC a c (m1 ++ m2) := by
+  obtain ⟨_, e1, t1, b1, k1⟩ := h1
+  obtain ⟨g2, e2, t2, b2, k2⟩ := h2
+  exact ⟨g2, e2 ++ e1, by rw [t2, t1, List.append_assoc], b1.append b2, by rw [markers_append, k1, k2]⟩
+
 theorem cycle_good (S : Scripts) (rh : HookFn) (hrh : HookOK rh) (n : Nat) (acts : List Action) (w : W)
-    (g : Good w) : GT w (cycle S rh n acts w).1 := by
+    (g : Good w) : GTC w (cycle S rh n acts w).1 (if w.shutdown then [] else [n]) := by
   unfold cycle
   split
-  · exact GT.refl g
-  · obtain ⟨g1, hc, hm⟩ := cycleHead_good n acts w g
-    exact g1.trans (cycleBody_good S rh hrh _ _ _ g1.1 (fun t ht => by rw [hm]; exact hc t ht))
+  · exact (GT.refl g).toC
+  · obtain ⟨g1, ht, hc, hm⟩ := cycleHead_good n acts w g
+    have hb := cycleBody_good S rh hrh ((slots w).filter Option.isSome).length _ _ g1
+      (fun t ht' => by rw [hm]; exact hc t ht')
+    have h1 : GTC w (cycleHead n acts w).1 [n] :=
+      ⟨g1, [Ev.cycle n], ht, ⟨by simp [isCrash], rfl, by simp⟩, rfl⟩
+    have := h1.trans hb.toC
+    simpa using this
 
+/-- the run of the scripted cycles appends consecutive markers `n, n+1, ...` (none any more once the driver has been
+    shut down) -/
 theorem runCycles_good (S : Scripts) (rh : HookFn) (hrh : HookOK rh) :
-    ∀ (h : List (List Action)) (n : Nat) (w : W), Good w → GT w (runCycles S rh n h w) := by
+    ∀ (h : List (List Action)) (n : Nat) (w : W), Good w →
+      ∃ m, GTC w (runCycles S rh n h w) (List.range' n m) := by
   intro h
   induction h with
-  | nil => intro n w g; exact GT.refl g
+  | nil => intro n w g; exact ⟨0, (GT.refl g).toC⟩
   | cons a as ih =>
     intro n w g
     have g1 := cycle_good S rh hrh n a w g
-    exact g1.trans (ih (n + 1) _ g1.1)
+    obtain ⟨m, g2⟩ := ih (n + 1) _ g1.1
+    by_cases hs : w.shutdown = true
+    · -- shut down: this and every later iteration is left at once, the state does not change any more
+      have e : (cycle S rh n a w).1 = w := by unfold cycle; simp [hs]
+      have hstay : ∀ (as : List (List Action)) (k : Nat), runCycles S rh k as w = w := by
+        intro as
+        induction as with
+        | nil => intro k; rfl
+        | cons b bs ihb =>
+          intro k
+          show runCycles S rh (k + 1) bs (cycle S rh k b w).1 = w
+          have : (cycle S rh k b w).1 = w := by unfold cycle; simp [hs]
+          rw [this]; exact ihb (k + 1)
+      refine ⟨0, ?_⟩
+      show GTC w (runCycles S rh (n + 1) as (cycle S rh n a w).1) _
+      rw [e, hstay]
+      exact (GT.refl g).toC
+    · simp only [hs, if_false] at g1
+      refine ⟨m + 1, ?_⟩
+      have := g1.trans g2
+      have e : (if false = true then [] else [n]) ++ List.range' (n + 1) m = List.range' n (m + 1) := by
+        simp [List.range'_succ]
+      rw [e] at this
+      exact this
 
 /-- the idle driver: no connection at all (all_users == NULL), nothing in flight -/
 structure Fresh (w : W) : Prop where
@@ -270,9 +377,13 @@ theorem startup_good (S : Scripts) (rh : HookFn) (hrh : HookOK rh) (w : W) (f : 
   · rename_i hnet
     exact ⟨⟨iv, fun hm => absurd hm hnet, cv⟩, tv⟩
 
-theorem run_gt (S : Scripts) (w0 : W) (h : List (List Action)) (f : Fresh w0) : GT w0 (run S w0 h) := by
+theorem run_gt (S : Scripts) (w0 : W) (h : List (List Action)) (f : Fresh w0) :
+    ∃ m, GTC w0 (run S w0 h) (List.range' 1 m) := by
   have g0 := startup_good S _ (runHook_ok S hookFuel) w0 f
-  exact g0.trans (runCycles_good S _ (runHook_ok S hookFuel) h 1 _ g0.1)
+  obtain ⟨m, g1⟩ := runCycles_good S _ (runHook_ok S hookFuel) h 1 _ g0.1
+  have := g0.toC.trans g1
+  rw [List.nil_append] at this
+  exact ⟨m, this⟩
 
 /-- **backend_total.**  Starting from the idle driver (no connection at all), for every script oracle `S` (what every
     command, process_input, logon, net_dead, heart_beat, call_out, reset hook does - succeed, raise, raise inside a
@@ -285,7 +396,7 @@ theorem run_gt (S : Scripts) (w0 : W) (h : List (List Action)) (f : Fresh w0) : 
 theorem backend_total (S : Scripts) (w0 : W) (h : List (List Action)) (f : Fresh w0) :
     (run S w0 h).crashed = none ∧ (run S w0 h).inError = false ∧ (run S w0 h).inMeh = false ∧
     (run S w0 h).ctxDepth = 1 := by
-  have g : Good (run S w0 h) := (run_gt S w0 h f).1
+  have g : Good (run S w0 h) := (run_gt S w0 h f).choose_spec.1
   exact ⟨g.inv.crashed, g.inv.inError, g.inv.inMeh, g.base⟩
 
 /-- the same after every cycle, spelled out: for every prefix of the history -/
@@ -299,7 +410,7 @@ theorem backend_total_prefix (S : Scripts) (w0 : W) (h : List (List Action)) (k 
 theorem freed_conn_never_used_run (S : Scripts) (w0 : W) (h : List (List Action)) (f : Fresh w0) (o : Oid) (id : Nat)
     (hi : (run S w0 h).inter o = some id) : (findConn (run S w0 h) id).isSome = true ∧
       useConn (run S w0 h) id = run S w0 h := by
-  have g : Good (run S w0 h) := (run_gt S w0 h f).1
+  have g : Good (run S w0 h) := (run_gt S w0 h f).choose_spec.1
   exact ⟨g.inv.live o id hi, useConn_live _ id (g.inv.live o id hi)⟩
 
 end NV.C09
